@@ -105,6 +105,8 @@ inline Plan Gen(uint64_t seed)
    const bool useFilters = !cfg.oneIn(3), useBatch = cfg.oneIn(2), useDepartures = !cfg.oneIn(4);
    const bool knownDefects = cfg.oneIn(12);   // one run in twelve may subscribe with an alias spelling or an empty clause (recorded findings F14, F9); kept rare so they mask little
    p.push_back("cfg prop=C04 clients=" + I(clients) + " hosts=" + I(hosts) + " faultfree=" + I(faultFree) + " knowndefects=" + I(knownDefects));
+   // one run in four: every server-side transport has an output stall limit (as TCP sockets do), and some quiescent points are reached over a slow link
+   Rng sr(seed, "stall"); const bool stallRun = sr.oneIn(4); if (stallRun) p.push_back("cfg stall=" + U(sr.oneIn(3) ? 3000000ULL : 180000000ULL));
    GenState g(clients, hosts); g.quietOk = cfg.oneIn(4);   // one run in four also uses the quiet flags (quiet set, quiet removal, quiet subscribe) with their documented relaxations
    for (int c=0; c<clients; c++) if ((c < 2)||(cfg.pct(70))) GenConnect(p, g, cfg, fl, c, faultFree);
    p.push_back("step 2");
@@ -197,7 +199,7 @@ inline Plan Gen(uint64_t seed)
       else GenPump(p, g, wl);
       if ((inBatch)&&(wl.oneIn(2))) p.push_back("bflush " + I(c));
       if (wl.pct(55)) GenPump(p, g, wl);
-      if ((++sinceQuiesce >= 10 + (int) wl.below(10))||(wl.oneIn(12))) {for (int i=0; i<clients; i++) if (g.up[i]) p.push_back("bflush " + I(i)); p.push_back("quiesce"); sinceQuiesce = 0;}
+      if ((++sinceQuiesce >= 10 + (int) wl.below(10))||(wl.oneIn(12))) {for (int i=0; i<clients; i++) if (g.up[i]) p.push_back("bflush " + I(i)); p.push_back(((stallRun)&&(sr.oneIn(2))) ? ("slowq " + I((int) sr.below((uint32_t) clients)) + " " + U(sr.oneIn(2) ? 8 : (16 + sr.below(100))) + " " + I(8 + (int) sr.below(40))) : std::string("quiesce")); sinceQuiesce = 0;}
    }
    for (int i=0; i<clients; i++) if (g.up[i]) p.push_back("bflush " + I(i));
    return p;
